@@ -3,8 +3,10 @@
 Domain : texts the default loader accepts - grammar-generated with free spelling
          (vlib.gen_text, 'default' dialect, random layouts), texts with value gaps
          (C08 generator), the tests/data corpus, and a pool of loader-only values
-         (leap seconds, units on sequences, mixed-case keywords) x four encoders x
-         encoder options.
+         (leap seconds, units on sequences, mixed-case keywords), character-level
+         mutants of all of these (delete / splice / duplicate / swap / join lines), and
+         - thorough tier - coverage-guided bytes from atheris with this oracle inside
+         the target, x four encoders x encoder options.
 Oracle : m1 = loads(t0); t1 = dumps(m1, E) (refusal -> skipped, counted);
          m2 = loads(t1) must succeed and equal m1 up to the C01 normalisations of E;
          t2 = dumps(m2, E) must equal t1 byte for byte, or after sorting the
@@ -33,7 +35,9 @@ REPO = os.environ.get("VERIF_REPO", "/repo")
 RULE = (
     "case = (text t0 loadable by the default loader, encoder, options). t0 comes "
     "from the grammar generator (free spelling, random layout), the gap generator "
-    "of C08 (placeholders), the tests/data corpus, or a pool of loader-only values. "
+    "of C08 (placeholders), the tests/data corpus, a pool of loader-only values, or "
+    "1-4 character-level mutations of one of those (kept when the loader still "
+    "accepts the text); thorough adds coverage-guided atheris inputs. "
     "Non-trivial = m1 is non-empty, the encoder accepted it and t1 != t0; distinct "
     "by (text, encoder, options)."
 )
@@ -218,13 +222,66 @@ def c01_kinds():
 
 _CORPUS = None
 
+# what a mutation may splice in: PVL-significant characters and lexemes that change the
+# class of their neighbour (the quantifier's "mutated variants")
+SPLICE = ["-", "+", ".", "#", "'", '"', "=", ";", ",", "(", ")", "{", "}", "<", ">",
+          "/*", "*/", "/* c */", "\n", "\r\n", "\t", " ", "  ", "-\n", "&", "^", ":",
+          "e", "E", "T", "Z", "_", "0", "1", "2#", "16#", "#", "<m>", "<km/s>", "NULL",
+          "true", "END", "End_Group", "Group = g", "Object", "1e400", "12:00:60",
+          "\x0b", "\x0c", "\xa0", "\u00e9", "\u2028", "''", '""', "a = ", " = "]
+
+
+@st.composite
+def mutants(draw):
+    """A loadable text (generated, pool or corpus) with 1-4 character-level edits:
+    delete a short run, splice in a significant lexeme, duplicate a run, swap two
+    neighbouring runs, or join two lines.  Whether the result still loads is decided by
+    the loader (run_case skips what it refuses)."""
+    global _CORPUS
+    if _CORPUS is None:
+        _CORPUS = corpus()
+    base = draw(st.sampled_from(["gen", "gen", "pool", "corpus"]))
+    if base == "gen":
+        doc = draw(gt.documents("default", min_statements=1))
+        t = gt.seeded_layout(doc, "default", draw(st.integers(0, 2 ** 32)), "light")
+    elif base == "corpus" and _CORPUS:
+        t = draw(st.sampled_from(_CORPUS))
+        if len(t) > 1200:
+            a = draw(st.integers(0, len(t) - 1200))
+            a = t.rfind("\n", 0, a) + 1
+            t = t[a:a + 1200]
+    else:
+        t = draw(st.sampled_from(POOL))
+    for _ in range(draw(st.integers(1, 4))):
+        if not t:
+            break
+        op = draw(st.sampled_from(["del", "ins", "ins", "dup", "swap", "join"]))
+        i = draw(st.integers(0, len(t) - 1))
+        k = draw(st.integers(1, 6))
+        if op == "del":
+            t = t[:i] + t[i + k:]
+        elif op == "ins":
+            t = t[:i] + draw(st.sampled_from(SPLICE)) + t[i:]
+        elif op == "dup":
+            t = t[:i] + t[i:i + k] + t[i:]
+        elif op == "swap":
+            t = t[:i] + t[i + k:i + 2 * k] + t[i:i + k] + t[i + 2 * k:]
+        else:
+            j = t.find("\n", i)
+            if j >= 0:
+                t = t[:j] + " " + t[j + 1:]
+    return t
+
 
 @st.composite
 def cases(draw, enc):
     global _CORPUS
     if _CORPUS is None:
         _CORPUS = corpus()
-    src = draw(st.sampled_from(["gen", "gen", "gen", "gap", "corpus", "pool"]))
+    src = draw(st.sampled_from(["gen", "gen", "gen", "gap", "corpus", "pool",
+                                "mutant", "mutant"]))
+    if src == "mutant":
+        return dict(text=draw(mutants()), enc=enc, cfg=draw(c01.cfgs(enc)), src=src)
     if src == "gen":
         gd = enc if (enc in ("ODL", "PDS3") and draw(st.booleans())) else "default"
         doc = draw(gt.documents(gd, min_statements=1))
@@ -279,11 +336,51 @@ def fixed_cases(acc, enc):
             acc.fail(r[1], case, r[2])
 
 
+FUZZ_CFGS = [{}, {"width": 40}, {"indent": 0, "width": 20}, {"width": 132, "indent": 4}]
+
+
+def fuzz_decode(data):
+    """bytes -> case: byte 0 picks the encoder and one of four option sets."""
+    if len(data) < 2:
+        return None
+    try:
+        text = data[1:].decode("utf-8")
+    except UnicodeDecodeError:
+        text = data[1:].decode("latin-1")
+    return dict(text=text, enc=ENCODERS[data[0] % 4], cfg=FUZZ_CFGS[(data[0] // 4) % 4])
+
+
+def fuzz_one(data):
+    case = fuzz_decode(data)
+    if case is None:
+        return ("short", None)
+    r = run_case(case)
+    if r[0] == "fail":
+        return ("fail", (r[1], case, r[2]))
+    return (r[0], None)
+
+
+def fuzz_corpus():
+    out = []
+    for k, t in enumerate(POOL + [c[:380] for c in corpus()]):
+        out.append(bytes([k % 16]) + t.encode("utf-8", "replace"))
+    return out
+
+
+def atheris_shard(acc, seed, runs, use_corpus):
+    import sys
+    from vlib.fuzzrun import atheris_shard as run
+    run(acc, ID, seed, runs, use_corpus, max_len=400, prop=sys.modules[__name__])
+
+
 def shards(tier, seed):
-    n = 220 if tier == "quick" else 6000
+    n = 300 if tier == "quick" else 6000
     out = [("random_cases", dict(enc=ENCODERS[j % 4], n=n, seed=seed * 1000 + j))
            for j in range(16)]
     out += [("fixed_cases", dict(enc=e)) for e in ENCODERS]
+    if tier == "thorough":
+        out += [("atheris_shard", dict(seed=seed * 100 + j + 1, runs=150000,
+                                       use_corpus=bool(j % 2))) for j in range(8)]
     return out
 
 
